@@ -230,6 +230,26 @@ def impl(t, case):
             return Con("New", news[id(x)], type(x).__name__, x.id, x.content_id, obs_origin_struct(x.origin), ps, ks)
 
         tree_obs = obs(res)
+        # implementation-only clause: every node of the result is registered under its own id, and the registry holds
+        # no entry whose key is not the id of the object it points at (a stale entry would later be returned by lookup
+        # and be mistaken for a shared object)
+        from pyoak.node import NODE_REGISTRY
+        bad = []
+        for key, obj in list(NODE_REGISTRY.items()):
+            if obj.id != key:
+                bad.append("stale-registry-entry")
+        stack2, seen2 = [res], set()
+        while stack2:
+            x = stack2.pop()
+            if id(x) in seen2:
+                continue
+            seen2.add(id(x))
+            if NODE_REGISTRY.get(x.id) is not x:
+                bad.append("result-node-not-registered-under-its-id")
+            for _, _, ks in kids_of(u, x):
+                stack2.extend(ks)
+        if bad:
+            return Con("RTBad", sorted(set(bad)))
         ref = Built(u, mk_origin).build(tree)
         eq = bool(res == ref) and not bool(res != ref)
         return Con("RT", ser, Con("Ok", tree_obs, eq))
@@ -242,6 +262,8 @@ def impl(t, case):
 def compare(inp, impl_obs, model_obs):
     if impl_obs == model_obs:
         return []
+    if isinstance(impl_obs, Con) and impl_obs.name == "RTBad":
+        return ["registry:" + x.decode() for x in impl_obs.args[0]]
     if not (isinstance(impl_obs, Con) and impl_obs.name == "RT" and isinstance(model_obs, Con) and model_obs.name == "RT"):
         return ["result"]
     diffs = []
@@ -272,7 +294,7 @@ def nontrivial(inp, model_obs):
 
 def spec_violation(inp, impl_obs, model_obs, diffs):
     # the exact dict layout is C16's business; everything about the round trip is stated by C04
-    return any(d.startswith("roundtrip") for d in diffs)
+    return any(d.startswith("roundtrip") or d.startswith("registry:") for d in diffs)
 
 
 def search(rng, tier):
